@@ -371,6 +371,9 @@ class TransformationGraph(Graph):
             else:
                 x = self.add_expr(expr.x, root, BNode(), intermediate=True,
                     origin=origin)
+            # `x` may already be an input of `f`: the same source passed (or
+            # returned by a passed function) a second time
+            repeated = (f, TF["from"], x) in self
             self.add_from(f, x)
 
             # If `x` has internal operations of its own, then those inner
@@ -391,7 +394,7 @@ class TransformationGraph(Graph):
             # operation
             if current_internal:
                 for f_input in self.objects(f, TF["from"]):
-                    if x != f_input:
+                    if x != f_input or repeated:
                         self.add_from(current_internal, f_input)
 
                 if origin and self.with_workflow_origin:
